@@ -421,6 +421,23 @@ def run(ctx):
         else:
             ctx.fail("C16.R5", "type-test", ad.file, tn.line, ad.qual,
                      f"type validation is `{txt}`")
+    if tn is not None:
+        # the type test is skipped for `attrs is None` ONLY: every outer guard of
+        # the raise is that test (a truthiness test lets '', 0, b'' through as if
+        # they were None)
+        bad = []
+        for g_expr, g_branch, _ in cfg.guards(tn)[:-1]:
+            t_ = norm_stmt(g_expr).replace(" ", "")
+            if not ((t_ == "attrsisnotNone" and g_branch) or (t_ == "attrsisNone" and not g_branch)
+                    or (t_ == "not(attrsisNone)" and g_branch)):
+                bad.append(f"{norm_stmt(g_expr)} is {bool(g_branch)}")
+        if bad:
+            ctx.fail("C16.R5", "type-test-reached", ad.file, tn.line, ad.qual,
+                     f"the type validation of attrs is reached only when {'; '.join(bad)}: a "
+                     f"non-None argument that fails this test is treated like None (all "
+                     f"attributes queried) instead of raising TypeError")
+        else:
+            ctx.ok("C16.R5", "type-test-reached", sample="skipped for `attrs is None` only")
     vn = raises.get("ValueError")
     if vn is not None:
         from ..core.analysis import assigned_names
